@@ -171,12 +171,12 @@ def _r1(chk, repo):
     f = repo.method(dist, "logd")[1]
     v, g = cfgv(repo, dist, f)
     # the protected step: the conditional is evaluated through its conditioned copy self(**{cond var: value})
-    cond = [(n, b) for n, b in nodes_matching(g, "$nd=self(**{_k0:kwargs[_k0] for _k0 in $cv})")]
+    cond = [(n, b) for n, b in nodes_matching(g, "$nd=self(**{_k0:$kw[_k0] for _k0 in $cv})")]
     rec = len(cond) == 1
     c0, b = (cond[0] if rec else (None, {}))
-    ok = rec and (guarded(g, c0, "len(kwargs)<len($cv)+1", "F", b))
+    ok = rec and (guarded(g, c0, "len($kw)<len($cv)+1", "F", b))
     chk.decide("C01-R1", f"{dist.qual}.logd/enough", ok, rec, site(repo, f), "too few values refused", "too few values are not refused", f)
-    ok = rec and (guarded(g, c0, "all([_k0 in kwargs for _k0 in $cv])", "T", b) or guarded(g, c0, "all((_k0 in kwargs for _k0 in $cv))", "T", b))
+    ok = rec and (guarded(g, c0, "all([_k0 in $kw for _k0 in $cv])", "T", b) or guarded(g, c0, "all((_k0 in $kw for _k0 in $cv))", "T", b))
     chk.decide("C01-R1", f"{dist.qual}.logd/all-cond-vars", ok, rec, site(repo, f),
                "every conditioning variable must be given", "an evaluation with a missing conditioning variable is not refused", f)
     ok = rec and len(nodes_matching(g, "$cv=self.get_conditioning_variables()", b)) == 1
